@@ -19,6 +19,7 @@ import time
 import xonsh.platform as xp
 import xonsh.tools as xt
 from xonsh.built_ins import XSH
+from xonsh.lib import verifhooks as _vh
 from xonsh.cli_utils import run_with_partial_args
 from xonsh.procs.pipes import PipeChannel
 from xonsh.procs.readers import safe_fdclose
@@ -497,9 +498,11 @@ class ProcProxyThread(threading.Thread):
                 source_msg="Exception in thread " + get_proc_proxy_name(self)
             )
             r = 1
+        _vh.point("proxy.returned")
         safe_flush(sp_stdout)
         safe_flush(sp_stderr)
         self.returncode = parse_proxy_return(r, sp_stdout, sp_stderr)
+        _vh.point("proxy.before_close")
         try:
             if not last_in_pipeline:
                 # Close wrappers before closing raw fds to avoid
